@@ -125,6 +125,9 @@ func runC18(c *Ctx) {
 	if queryKey {
 		cfg.QuerySigningKey = env.Key32
 	}
+	if c.T.Bool(1, 2) {
+		cfg.QueryIssuer = "portal.test" // with or without a query-token key
+	}
 	d = append(d, fmt.Sprintf("hosts=%d selection=%q querykey=%v", nh, mode, queryKey))
 	// kerberos
 	keytab := false
